@@ -11,6 +11,7 @@ import CpProofs.Ssh.Fingerprint
 import CpProofs.Ssh.Variant
 import CpProofs.Ssh.NoCrash
 import CpProofs.Ssh.Banner
+import CpProofs.Ssh.BannerRT
 import CpModel.Ssh.Banner
 import CpModel.Ssh.Cert
 /-
@@ -28,18 +29,11 @@ import CpModel.Ssh.Cert
     Ssh/Fingerprint  base 64 and colon-hex renderings
     Ssh/Variant      the message variants and the three record classes
     Ssh/NoCrash      which SSH parsers can only fail with the four documented parse errors
-    Ssh/Banner       the identification string: consumed length
+    Ssh/Banner       the identification string: consumed length, no crash, composed form
+    Ssh/BannerRT     the identification string: round trip
 -/
 namespace Cp.Ssh
 open Cp
-
-/-- the banner composer writes the RFC 4253 §4.2 identification string -/
-theorem banner_compose_spec (major minor : Nat) (raw : Bytes) (comment : Option Bytes) :
-    composeBanner ⟨major, minor, ⟨"SshSoftwareVersionUnparsed", some raw⟩, comment⟩ =
-      .ok (Spec.Ssh.identification major minor raw comment) := by
-  cases comment <;>
-    simp [composeBanner, composeProtocolVersion, composeSoftwareVersion, bind, Except.bind, pure, Except.pure,
-      Spec.Ssh.identification, ssh, digitsOfNat, Spec.Ssh.digits]
 
 /-- flag extensions and unparsed options are `string name ‖ string data` -/
 theorem certOpt_compose_spec :
